@@ -17,6 +17,8 @@ class Crate:
         self.adts = d["adts"]
         self.impls = d["impls"]
         self.fns = d["fns"]
+        self.consts = d.get("consts", [])      # initialisers of const / static items: {def, file, line, exp, body}
+        self._const_by_def = dict((k_["def"], k_) for k_ in self.consts)
         self.exports = dict((a, b) for a, b in d.get("exports", []))
         self.n_bodies = d["n_bodies"]
         self._mir_path = mir_path
@@ -30,6 +32,11 @@ class Crate:
 
     def dfn(self, i):
         return self.defs[i] if i is not None else None
+
+    def const_body(self, i):
+        """the initialiser expression of the const / static item with def index i of this crate (None if not local)"""
+        k_ = self._const_by_def.get(i)
+        return k_["body"] if k_ else None
 
     @property
     def mir(self):
